@@ -244,9 +244,9 @@ fn run_case(line: &str) -> String {
     v::set_precision_override(None);
     v::set_overhead_override(None);
     let log = v::log_take();
-    let dump = match res {
-        Ok(d) => d,
-        Err(e) => return format!("panic {}", hxlib::classify_panic(hxlib::panic_msg(&e))),
+    let (dump, panicked) = match res {
+        Ok(d) => (d, None),
+        Err(e) => (v::RunDump::default(), Some(hxlib::classify_panic(hxlib::panic_msg(&e)))),
     };
 
     // Read the log back: per thread the alternating START/END readings, the
@@ -322,6 +322,10 @@ fn run_case(line: &str) -> String {
             }
         }
         h.push(row.join(","));
+    }
+    if let Some(kind) = panicked {
+        // the history up to the panic is still of use to the model
+        return format!("panic {} | vt={} init={} h={}", kind, vt, init.map_or("-".to_string(), |i| i.to_string()), h.join(";"));
     }
     let stats = dump.stats.as_ref();
     format!(
